@@ -521,7 +521,7 @@ pub fn run_c11(ctx: &Ctx) -> (&'static str, Map<String, Value>) {
     m.insert("signature_length_boundary_transitions".into(), json!(fam_agg.transitions.load(std::sync::atomic::Ordering::Relaxed)));
     m.insert("rule".into(), json!("storage-corruption space, each finite dimension enumerated completely: parameter-list lengths 0..10; key length 0..64; all 256 values of each of the 8 parameter bytes; boundary counters; zero/wiped/0xff blobs; keygen aux lengths 0..header+6 x fills; sign aux lengths 0..header+2 x {valid prefix, zero, 0xff}; every single-byte corruption of the level word; x {sign bytes API, SigningKey}; each distinct input is executed on the real code and compared with the model's expectation (Err, or the correct result)"));
     m.insert("exhaustive".into(), json!(true));
-    crate::props_build::restricted_cross(ctx, &mut m, |_, wh| wh != crate::props_build::Where::Inside);
+    crate::props_build::restricted_cross(ctx, &mut m, |t, wh| wh != crate::props_build::Where::Inside || matches!(t, crate::probe_tasks::Task::Keygen { aux_len: Some(_), .. } | crate::probe_tasks::Task::SignAt { aux_len: Some(_), .. }));
     ("fault_enumeration", m)
 }
 
